@@ -105,6 +105,40 @@ class C15(Check):
             if len(f) >= 34 and f[12:14] == b"\x08\x00" and f[23] in (1, 2): self._l4off[name] = 14 + (f[14] & 15) * 4
             elif len(f) >= 58 and f[12:14] == b"\x86\xdd" and f[20] == 58: self._l4off[name] = 54
         self._known = common.Findings()
+        self.fixes = self.detect_fixes()
+
+    # which of the repairs fixes/C15-K<n>_*.diff the tree under test has, read off the source of the function each one changes (the model is
+    # asked for that variant: `Cfg.repairedWith fx`).  A repair that is present only in part, or written differently, is not recognised: the
+    # model then expects the raise and the run reports the disagreement.
+    FIX_MARKS = {
+        "K5": [("icmpv6", "NDNeighborSolicitation.unpack_new", r"if\s+buf_len\s*-\s*offset\s*<\s*(4\s*\+\s*16|20)\s*:\s*raise\s+TruncatedException"),
+               ("icmpv6", "NDNeighborAdvertisement.unpack_new", r"if\s+buf_len\s*-\s*offset\s*<\s*(4\s*\+\s*16|20)\s*:\s*raise\s+TruncatedException")],
+        "K6": [("icmpv6", "_parse_ndp_options", r"%\s*8\s*!=\s*0\s*:\s*raise\s+TruncatedException")],
+        "K7": [("icmpv6", "NDOptionBase.unpack_new", r"if\s+l\s*==\s*0\s*:\s*raise\s+TruncatedException"),
+               ("icmpv6", "NDOptionBase.unpack_new", r"LENGTH\s*!=\s*length_bytes\s*:\s*raise\s+TruncatedException")],
+        "K8": [("icmpv6", "NDRouterAdvertisement.unpack_new", r"if\s+buf_len\s*-\s*offset\s*<\s*12\s*:\s*raise\s+TruncatedException"),
+               ("icmpv6", "PacketTooBig.unpack_new", r"if\s+buf_len\s*-\s*offset\s*<\s*4\s*:")],
+        "K9": [("ipv6", "NormalExtensionHeader.unpack_new", r"if\s+len\(raw\)\s*-\s*offset\s*<\s*2\s*:\s*raise\s+TruncatedException")],
+        "K10": [("gre", "gre.parse", r"if\s+dlen\s*<\s*need\s*:"), ("gre", "gre.parse", r"if\s+dlen\s*<\s*o\s*\+\s*4\s*:")],
+        "K13": [("igmp", "igmp.parse", r"if\s+len\(self\.extra\)\s*<\s*8\s*:")],
+        "K14": [("igmp", "GroupRecord.unpack_new", r"if\s+len\(raw\)\s*-\s*offset\s*<\s*4\s*:\s*break")],
+        "K16": [("dhcp", "dhcp.parse", r"self\.parsed\s*=\s*True\s*self\.options\s*=\s*util\.DirtyDict\(\)\s*if\s+self\.hlen\s*>\s*16")],
+    }
+
+    def detect_fixes(self):
+        src = {}
+        def body(mod, qual):
+            path = os.path.join(self.pktdir, mod + ".py")
+            if path not in src:
+                try: src[path] = open(path).read().splitlines()
+                except OSError: src[path] = []
+            r = common.resolve_qualname(path, qual)
+            if r is None: return ""
+            # comments and line continuations out, whitespace collapsed: the marks are matched on the statements
+            lines = [re.sub(r"#.*$", "", l).rstrip("\\") for l in src[path][r[0] - 1:r[1]]]
+            return re.sub(r"\s+", " ", " ".join(lines))
+        return sorted((k for k, marks in self.FIX_MARKS.items() if all(re.search(rx, body(mod, qual)) for mod, qual, rx in marks)),
+                      key=lambda k: int(k[1:]))
 
     # ------------------------------------------------------------------ observing the real code
     def _where(self, e):
@@ -195,7 +229,7 @@ class C15(Check):
         if name == "PacketTooBig": return {"mtu": o.mtu[0] if isinstance(o.mtu, tuple) else o.mtu}
         if name == "NDRouterSolicitation": return {"opts": self._ndo(o)}
         if name == "NDRouterAdvertisement": return {"hop_limit": o.hop_limit, "managed": bool(o.is_managed), "other": bool(o.is_other), "lifetime": o.lifetime,
-                                                    "reachable": o.reachable, "retrans": g("retrans_time"), "opts": self._ndo(o)}
+                                                    "reachable": o.reachable, "retrans": o.__dict__.get("retrans_time", o.retrans_timer), "opts": self._ndo(o)}
         if name == "NDNeighborSolicitation": return {"target": o.target.raw.hex(), "opts": self._ndo(o)}
         if name == "NDNeighborAdvertisement": return {"router": bool(o.is_router), "solicited": bool(o.is_solicited), "override": bool(o.is_override),
                                                       "target": o.target.raw.hex(), "opts": self._ndo(o)}
@@ -418,7 +452,7 @@ class C15(Check):
         # the phase-1 model (`Cfg.core`) is asked as well for the fixed corpus and one generated case in four
         how = case.get("how", "")
         core = not how.startswith(("key", "set", "marks", "splice", "indel", "random", "nest")) or int(case["hex"][-2:] or "0", 16) % 4 == 0
-        return {"op": "parse", "cfg": "repaired", "raw": case["hex"], "core": core}
+        return {"op": "parse", "cfg": "repaired", "raw": case["hex"], "core": core, "fix": self.fixes}
 
     @staticmethod
     def _mview(resp):
@@ -677,7 +711,7 @@ class C15(Check):
     def extra_evidence(self):
         for fid, kf in sorted(self.soft_known.items()):
             print("KNOWN-FINDING: property=%s %s %s" % (self.id, fid, kf.get("what", "")))
-        return {"known_pack_print_findings_hit": sorted(self.soft_known), "distinct_failure_keys": dict(sorted(self.keys_seen.items())), "technique": self.technique, "level_text": self.level_text, "level_note": self.level_note, "design_ref": self.design_ref}
+        return {"repairs_detected_in_source": self.fixes, "known_pack_print_findings_hit": sorted(self.soft_known), "distinct_failure_keys": dict(sorted(self.keys_seen.items())), "technique": self.technique, "level_text": self.level_text, "level_note": self.level_note, "design_ref": self.design_ref}
 
 C15.theorems = ["Pox.C15." + t for t in (
     "parse_total_partial", "parse_total_of_no_known", "nesting_defect", "progress_recorded", "repack_total_partial", "print_total_partial",
